@@ -17,7 +17,8 @@ ID = "C02"
 RULE = (
     "seeded (data set, noise specification, mean function, kernel spec, hyper-parameters, query set): n = 2-40 points, d = 1-4, "
     "noise none / y_err / full y_cov given as ndarray or list, every mean x {SE, RQ, sums with WhiteNoise / Heteroscedastic, "
-    "change-points with 2-4 kernels, sums containing change-points}; queries at, between and far from the data, single and "
+    "change-points with 2-4 kernels (regions may carry their own noise term), sums containing change-points}; means: the three built-in ones and "
+    "two user-written sub-classes (one non-linear in a hyper-parameter, one written for one point at a time); queries at, between and far from the data, single and "
     "batched, arrays and lists; judged when cond(K+S) <= 1e10; non-trivial = composite kernel or d >= 2 or non-constant mean "
     "or correlated noise; distinct = distinct (spec, data, theta, queries)"
 )
